@@ -4,7 +4,7 @@
     ([sat], [mined_at] arbitrary functions) and every RNG script. *)
 From V.Lib Require Import Base.
 From V.Gen Require Import C18Consts.
-From V.C18 Require Import Model Spec Corr Wf Store ProofsDead ProofsKernel ProofsLife ProofsDrive ProofsRebuild ProofsSeq ProofsStrand ProofsTerm ProofsTotal ProofsSampler ProofsStatus Bridge ProofsStore StoreFull ProofsStoreFull.
+From V.C18 Require Import Model Spec Corr Wf Store ProofsDead ProofsKernel ProofsLife ProofsDrive ProofsRebuild ProofsSeq ProofsStrand ProofsTerm ProofsTotal ProofsSampler ProofsStatus ProofsMarks Bridge ProofsStore StoreFull ProofsStoreFull.
 From Coq Require Import Sorted.
 Local Open Scope Z_scope.
 
@@ -198,6 +198,19 @@ Theorem C18_reevaluate_reason : forall sat mined_at s tg r s' dirty,
   advance sat mined_at s tg r = ARes SReevaluate s' dirty ->
   exists t tip, In t (m_txs (fst (sweep sat mined_at s tg))) /\ t_fail t = Some tip /\ as_of (sat t) < tip.
 Proof. exact advance_reevaluate_reason. Qed.
+
+(** Mark soundness, for every store (unique ids): an [Inherited] mark that appears during one
+    drive call — on a row unmarked before the call — has, in the state the call RETURNS, a direct
+    dependency that is an unmined row which is itself marked or expired at the scanned target.  So
+    a source the same call promoted to [Mined] never strands its dependents (the in-flight sweep
+    promotes before it records), and a live transfer is never reported [Unsatisfiable/Inherited]
+    behind a mined source by the call that mined it.  The same for one [record_satisfiability]. *)
+Theorem C18_advance_marks_sound : forall sat mined_at s tg r st s' dirty, NoDup (map t_id (m_txs s)) ->
+  advance sat mined_at s tg r = ARes st s' dirty -> marks_sound (tg_scanned tg) (m_txs s) (m_txs s').
+Proof. exact advance_marks_sound. Qed.
+Theorem C18_record_marks_sound : forall s tg dets, NoDup (map t_id (m_txs s)) ->
+  step_ok (tg_scanned tg) (m_txs s) (m_txs (record_satisfiability s tg dets)).
+Proof. exact record_sat_marks. Qed.
 
 (** The dead set: the loop computes exactly the inductively specified set, it is the least set
     containing the seeds and closed under dependents, and it is a fixpoint of the pass (reached
